@@ -363,6 +363,12 @@ def evaluate(inputs, mask=None, variant="plain"):
     """inputs -> list of dicts {input, case, status, nt, tags, detail, t}"""
     t, outs = run_eval(inputs, mask, variant=variant)
     t = t or 1
+    # a stall under heavy machine load is not a hang: retry a timed-out line once, alone, with a long limit
+    for i_, o_ in enumerate(outs):
+        if o_.endswith(" => fault timeout"):
+            _t2, again = run_eval([inputs[i_]], mask, stall_s=240, variant=variant)
+            if again:
+                outs[i_] = again[0]
     res = []
     normal, idx = [], []
     for i, o in enumerate(outs):
